@@ -40,6 +40,9 @@ def cases(tier):
 def make_desc(rng, n):
     k = rng.choice([1, 2, 3, 5, 8, 13, 20, 40, 80])
     words = ["D%dx" % n] + ["w%d%s" % (i, "y" * rng.choice([0, 0, 1, 3, 7])) for i in range(k - 1)]
+    # now and then a word that is too long for the description column (a path, a URL) - also as the first word of the text
+    if rng.random() < 0.15:
+        words[rng.choice([0, 0, rng.randrange(len(words))])] += "/" + "p" * rng.choice([15, 25, 44, 60, 78, 90])
     return " ".join(words)
 
 
